@@ -434,8 +434,7 @@ func (w *aWorld) exec(opt aOpts) *zz.Trace {
 						copy(f.Pix[y], pix[y])
 					}
 					f.Status.TimeOn, f.Status.LastFFCTime = tel.TimeOn(), tel.LastFFCTime()
-					ev.Heard = ev.Motion
-					ev.Motion = w.shadow.Detect(f)
+					ev.Truth, ev.HasTruth = w.shadow.Detect(f), true
 				case *lepton3.BadFrameErr:
 					ev.ErrKind = 'b'
 				default:
